@@ -1,7 +1,7 @@
 //! C15: the real `thread_manager::run` with a fault injected into one worker (cfg-gated fault
 //! points) or a real cause of death; how long until run() returns.  One scenario per process,
 //! inside a private mount namespace (the daemon uses /var/run/clockbound/shm and chronyd's socket).
-//!   thr <point|unwritable-segment> <nth> <0 = panic | 1 = return> [<chronyd: 0 = absent | 1 = hung | 2 = answers once | 3 = answers after 150 ms>
+//!   thr <point|unwritable-segment> <nth> <0 = panic | 1 = return> [<chronyd: 0 = absent | 1 = hung | 2 = answers once | 3 = answers after 150 ms | 4 = absent, and the segment file locked by another process>
 //!       [<delay point> <nth> <ms>]]
 //! chronyd answers once: the first request gets tracking data, every later one a well-formed reply
 //! without tracking data (so the poller reports "not responding, within the grace period").
@@ -73,6 +73,24 @@ pub fn run(toks: &[&str]) -> String {
             }
         });
     }
+    // 4: chronyd absent, and another process holds an exclusive flock and an exclusive record lock on the segment file
+    let locked = toks.len() > 3 && p::<i64>(toks[3]) == 4;
+    let mut lock_holder: Option<std::process::Child> = None;
+    if locked {
+        let _ = std::fs::remove_file("/var/run/clockbound");
+        let _ = std::fs::create_dir_all("/var/run/clockbound");
+        let _ = std::fs::OpenOptions::new().create(true).write(true).open("/var/run/clockbound/shm");
+        let mut ch = std::process::Command::new("python3")
+            .args(["-c", "import fcntl,sys,time\nf=open('/var/run/clockbound/shm','r+b')\nfcntl.flock(f,fcntl.LOCK_EX)\nfcntl.lockf(f,fcntl.LOCK_EX)\nprint('locked',flush=True)\ntime.sleep(120)"])
+            .stdout(std::process::Stdio::piped())
+            .spawn()
+            .expect("lock holder");
+        let mut line = String::new();
+        use std::io::BufRead;
+        let _ = std::io::BufReader::new(ch.stdout.take().unwrap()).read_line(&mut line);
+        assert!(line.starts_with("locked"), "the lock holder could not lock the segment file");
+        lock_holder = Some(ch);
+    }
     let real_cause = point == "unwritable-segment";
     if real_cause {
         // the segment's directory cannot be created: ShmWriter::new fails, the writer thread panics
@@ -80,7 +98,9 @@ pub fn run(toks: &[&str]) -> String {
         std::fs::write("/var/run/clockbound", b"not a directory").expect("scratch /var/run (run inside the namespace)");
         verif_fault::arm(None);
     } else {
-        let _ = std::fs::remove_file("/var/run/clockbound");
+        if !locked {
+            let _ = std::fs::remove_file("/var/run/clockbound");
+        }
         verif_fault::arm(Some((point, nth, fault)));
     }
     if toks.len() > 6 {
@@ -118,6 +138,10 @@ pub fn run(toks: &[&str]) -> String {
                 break;
             }
         }
+    }
+    if let Some(mut ch) = lock_holder {
+        let _ = ch.kill();
+        let _ = ch.wait();
     }
     let fired = fired_at.is_some() || verif_fault::report().0;   // the armed fault, or a death of the worker's own
     let ms = match (fired_at, returned_at) {
